@@ -449,6 +449,15 @@ PROPS["C02"]["verus"].append({"unit": U5, "fns": ["Chitchat::reset_node_state_if
 PROPS["C02"]["native"].append({"test": "verif_c18_catchup", "pairs": ["Chitchat::reset_node_state_if_update"]})
 PROPS["C02"]["level_text"] += " The catch-up entry point is part of the local lemmas: a fetched state older than the copy's GC watermark (or not newer than the copy) leaves the copy untouched - it cannot bring back entries the copy has already seen collected."
 PROPS["C02"]["assumptions"] += [A_U5, A_LRU]
+U7 = "u7_listener"
+PROPS["C15"]["verus"] = list(PROPS["C15"].get("verus", [])) + [{"unit": U7, "fns": ["InnerListeners::subscribe_event", "InnerListeners::remove_listener"]}]
+PROPS["C15"]["assumptions"] = list(PROPS["C15"]["assumptions"]) + [A_STD, A_KEY, "U7: the callbacks (Box<dyn Fn>) and the id counter (AtomicUsize) are opaque types; the id a subscription gets (fetch_add on the counter, under Arc / RwLock) and the dispatch itself (range scan in string order) are outside Verus - bounded driver c15_dispatch"]
+PROPS["C15"]["level_text"] += " The registry bookkeeping is proved on the real text of InnerListeners::subscribe_event / remove_listener: subscribing makes exactly the subscription (prefix, id) active, cancelling makes exactly it inactive, every other subscription is untouched."
+PROPS["C12"]["verus"].append({"unit": U4, "fns": ["FailureDetector::new"]})
+PROPS["C13"]["verus"].append({"unit": U4, "fns": ["FailureDetector::new"]})
+PROPS["C15"]["verus"].append({"unit": U1, "fns": ["NodeState::set_versioned_value"]})
+PROPS["C15"]["level_text"] += " WHEN listeners are triggered is proved at the call site inside the verified NodeState::set_versioned_value (ghost-guarded call): only for an update that was accepted (no entry, or a strictly older one) and is not a tombstone."
+PROPS["C15"]["level_note"] = "Deductive obligations exist for the bookkeeping and the trigger condition only; the dispatch itself (which registered prefixes match a key, each exactly once) stays bounded - string-order reasoning over BTreeMap::range is outside both verifiers. Claimed at exploration level with the property's own exhaustive scope; the finding F-2 it exposed is repaired (known_findings.json)."
 U2_CODEC = ["ChitchatId::serialize", "ChitchatId::serialized_len", "Heartbeat::serialize", "Heartbeat::serialized_len", "NodeDigest::serialize",
             "NodeDigest::serialized_len", "alloc::string::String::serialize", "alloc::string::String::serialized_len",
             "DeletionStatusMutation::serialize", "DeletionStatusMutation::serialized_len", "KeyValueMutationRef::serialize",
